@@ -399,30 +399,7 @@ def _mark(path: str) -> None:
 
 def child_main(argv: list) -> int:
     job = json.loads(argv[0])
-    c, d = norm_cfg(job["cfg"]), job["dir"]
-    import logging
-
-    import onnx_ir as ir
-
-    logging.getLogger("onnx_ir").setLevel(logging.ERROR)
-    model, ext = build_model(c, d, None)
-    if job.get("premap", True):
-        for ten in ext.values():
-            ten.numpy()  # hold a memory map of the destination, as after ir.load + use
-    res = {"out": "ok", "exc": None}
-    _mark(BEGIN_MARK)
-    try:
-        ir.save(model, os.path.join(d, MODEL_NAME), **save_kwargs(c))
-    except BaseException as e:  # noqa: BLE001
-        res = {"out": "raised", "exc": type(e).__name__, "msg": str(e)[:200], "errno": getattr(e, "errno", None)}
-    _mark(END_MARK)
-    res["tensors"] = tensor_report(c, ext, True)
-    res["repo"] = os.path.dirname(os.path.dirname(os.path.abspath(ir.__file__)))
-    if job.get("result"):
-        _robust_write(job["result"], res)
-    else:
-        sys.stdout.write(json.dumps(res) + "\n")
-        sys.stdout.flush()
+    _save_in_child(norm_cfg(job["cfg"]), job["dir"], job.get("result") or (job["dir"] + ".result.json"), None)
     return 0
 
 
@@ -709,6 +686,8 @@ def parse_strace(log_path: str, c: dict, d: str) -> SysTrace:
             if ent and ent[0] in dest_paths:
                 ev = {"a": "WriteDest"}
         if ev is None:
+            if injected or ret == "?":
+                tr.unmapped.append(f"{name}:{'kill' if ret == '?' else 'fail'}")
             continue
         ev.setdefault("t", 0)
         ev.setdefault("j", 0)
@@ -966,11 +945,28 @@ def py_job(job: dict) -> dict:
             _robust_write(rpath, {"harness_error": traceback.format_exc()[-1500:]})
         finally:
             os._exit(code)
-    _, status = os.waitpid(pid, 0)
+    status, deadline = None, time.time() + job.get("timeout", 300)
+    while status is None:
+        got, st = os.waitpid(pid, os.WNOHANG)
+        if got == pid:
+            status = st
+        elif time.time() > deadline:
+            os.kill(pid, 9)
+            os.waitpid(pid, 0)
+            status = -1
+        else:
+            time.sleep(0.002)
     try:
+        if status == -1:
+            raise ValueError("timeout")
         with open(rpath) as f:
             res = json.load(f)
     except (OSError, ValueError):
+        if status == -1:
+            res = {"harness_error": "timeout: the forked save did not finish"}
+        else:
+            res = None
+    if res is None:
         # the process died on its own during the save (e.g. SIGBUS): a crash, with the streamed events
         res = {"out": "crashed", "events": _read_events(epath), "tensors": {}, "fired": 0, "died": True}
     for x in (rpath, epath):
@@ -983,6 +979,10 @@ def py_job(job: dict) -> dict:
     res["cfg"] = c
     res["fault"] = fault
     res["layer"] = "py"
+    if not job.get("keep"):
+        import shutil
+
+        shutil.rmtree(d, ignore_errors=True)
     return res
 
 
@@ -1022,8 +1022,80 @@ def _robust_write(path: str, obj) -> None:
 # ----------------------------------------------------------------------------------------------
 # syscall layer runner
 # ----------------------------------------------------------------------------------------------
+BURN = 64  # dummy openat/write/close by the saving thread after the tracer attached (see _burn)
+
+
+def _burn(n: int = BURN) -> None:
+    """strace counts `when=k` per thread from the moment it attaches.  The saving thread first burns
+    n harmless openat/write/close calls, so that ITS effects are numbered n+1.. while the effects of
+    the writer's worker threads are numbered 1..: every position has a unique (syscall, k).
+    An errno injected into a dummy call is ignored here."""
+    for _ in range(n):
+        try:
+            fd = os.open("/dev/null", os.O_WRONLY)
+        except OSError:
+            continue
+        try:
+            os.write(fd, b"x")
+        except OSError:
+            pass
+        try:
+            os.close(fd)
+        except OSError:
+            pass
+
+
+def _strace_cmd(log: str, inj: dict | None) -> list:
+    cmd = ["strace", "-f", "-s", "1", "-o", log, "-e", "trace=" + TRACE_SET]
+    if inj:
+        what = f"error={inj['errno']}" if inj["kind"] == "fail" else "signal=SIGKILL"
+        cmd += ["-e", f"inject={inj['sys']}:{what}:when={inj['k']}"]
+    return cmd
+
+
+def _save_in_child(c: dict, d: str, rpath: str, wait_fd: int | None, ready_fd: int | None = None) -> None:
+    """Body of the traced process: build, wait for the tracer, save between the markers, report."""
+    import logging
+
+    import onnx_ir as ir
+
+    logging.getLogger("onnx_ir").setLevel(logging.ERROR)
+    model, ext = build_model(c, d, None)
+    for ten in ext.values():
+        ten.numpy()  # hold a memory map of the destination, as after ir.load + use
+    if wait_fd is not None:
+        os.write(ready_fd, b"r")   # everything before the save is done: the tracer may attach now
+        os.read(wait_fd, 1)
+        _burn()
+    res = {"out": "ok", "exc": None}
+    _mark(BEGIN_MARK)
+    try:
+        ir.save(model, os.path.join(d, MODEL_NAME), **save_kwargs(c))
+    except BaseException as e:  # noqa: BLE001
+        res = {"out": "raised", "exc": type(e).__name__, "msg": str(e)[:200], "errno": getattr(e, "errno", None)}
+    _mark(END_MARK)
+    res["tensors"] = tensor_report(c, ext, True)
+    res["repo"] = os.path.dirname(os.path.dirname(os.path.abspath(ir.__file__)))
+    _robust_write(rpath, res)
+
+
+def _tracer_pid(pid: int) -> int:
+    try:
+        with open(f"/proc/{pid}/status") as f:
+            for line in f:
+                if line.startswith("TracerPid:"):
+                    return int(line.split()[1])
+    except OSError:
+        return -1
+    return 0
+
+
 def sys_job(job: dict) -> dict:
-    """Run the child under strace (optionally with one injection), parse, observe."""
+    """One real ir.save traced by strace (optionally with one injection); parse the log, observe.
+
+    mode "attach" (default): fork from this warm process, the child waits, strace attaches with -p,
+    then the child saves -- per-thread syscall counts start at the attach, so positions are small and
+    deterministic.  mode "exec": a fresh interpreter is started under strace (counts include start-up)."""
     import shutil
     import subprocess
 
@@ -1032,32 +1104,95 @@ def sys_job(job: dict) -> dict:
     log = d + ".strace"
     rpath = d + ".result.json"
     inj = job.get("inject")
-    cmd = ["strace", "-f", "-s", "1", "-o", log, "-e", "trace=" + TRACE_SET]
-    if inj:
-        what = f"error={inj['errno']}" if inj["kind"] == "fail" else "signal=SIGKILL"
-        cmd += ["-e", f"inject={inj['sys']}:{what}:when={inj['k']}"]
-    cmd += [sys.executable, "-m", "vfh.faultfs", json.dumps({"cfg": c, "dir": d, "result": rpath})]
-    env = dict(os.environ)
-    env.update(PYTHONHASHSEED="0", PYTHONDONTWRITEBYTECODE="1", OMP_NUM_THREADS="1", OPENBLAS_NUM_THREADS="1",
-               MKL_NUM_THREADS="1")
-    try:
-        p = subprocess.run(cmd, env=env, capture_output=True, text=True, timeout=job.get("timeout", 120), cwd=os.path.dirname(d))
-        rc, err = p.returncode, p.stderr[-800:]
-    except subprocess.TimeoutExpired:
-        rc, err = -999, "timeout"
+    mode = job.get("mode", "attach")
+    timeout = job.get("timeout", 180)
+    rc, err = 0, ""
+    if mode == "attach":
+        r_go, w_go = os.pipe()
+        r_rdy, w_rdy = os.pipe()
+        pid = os.fork()
+        if pid == 0:
+            code = 0
+            try:
+                os.close(w_go)
+                os.close(r_rdy)
+                _save_in_child(c, d, rpath, r_go, w_rdy)
+            except BaseException:  # noqa: BLE001
+                code = 3
+            finally:
+                os._exit(code)
+        os.close(r_go)
+        os.close(w_rdy)
+        ready = os.read(r_rdy, 1)   # b"" if the child died while preparing
+        os.close(r_rdy)
+        p = subprocess.Popen(_strace_cmd(log, inj)[:2] + ["-p", str(pid)] + _strace_cmd(log, inj)[2:],
+                             stdout=subprocess.DEVNULL, stderr=subprocess.PIPE, text=True)
+        deadline = time.time() + 30
+        attached = False
+        while time.time() < deadline:
+            tp = _tracer_pid(pid)
+            if tp > 0:
+                attached = True
+                break
+            if p.poll() is not None or tp < 0:
+                break
+            time.sleep(0.002)
+        if not attached:
+            os.kill(pid, 9)
+            os.waitpid(pid, 0)
+            try:
+                p.kill()
+            except OSError:
+                pass
+            e = p.communicate()[1]
+            return {"cfg": c, "inject": inj, "rc": -998, "stderr": "strace could not attach: " + (e or "")[-300:], "res": {},
+                    "layer": "sys", "events": [], "positions": [], "begin": False, "end": False, "injected": 0,
+                    "killed_in": None, "unmapped": [], "obs": observe(c, d), "attach_failed": True}
+        os.write(w_go, b"x")
+        os.close(w_go)
+        status, deadline = None, time.time() + timeout
+        while status is None:
+            got, st = os.waitpid(pid, os.WNOHANG)
+            if got == pid:
+                status = st
+            elif time.time() > deadline:
+                os.kill(pid, 9)
+                os.waitpid(pid, 0)
+                status, rc = -1, -999
+            else:
+                time.sleep(0.002)
+        try:
+            err = p.communicate(timeout=30)[1][-800:]
+        except subprocess.TimeoutExpired:
+            p.kill()
+            err = "strace did not exit"
+        if rc == 0:
+            rc = -9 if (os.WIFSIGNALED(status) and os.WTERMSIG(status) == 9) else (
+                -os.WTERMSIG(status) if os.WIFSIGNALED(status) else os.WEXITSTATUS(status))
+    else:
+        cmd = _strace_cmd(log, inj) + [sys.executable, "-m", "vfh.faultfs", json.dumps({"cfg": c, "dir": d, "result": rpath})]
+        env = dict(os.environ)
+        env.update(PYTHONHASHSEED="0", PYTHONDONTWRITEBYTECODE="1", OMP_NUM_THREADS="1", OPENBLAS_NUM_THREADS="1",
+                   MKL_NUM_THREADS="1")
+        try:
+            p = subprocess.run(cmd, env=env, capture_output=True, text=True, timeout=timeout, cwd=os.path.dirname(d))
+            rc, err = p.returncode, p.stderr[-800:]
+        except subprocess.TimeoutExpired:
+            rc, err = -999, "timeout"
     res = {}
     try:
         with open(rpath) as f:
             res = json.load(f)
     except (OSError, ValueError):
         res = {}
-    out = {"cfg": c, "inject": inj, "rc": rc, "stderr": err, "res": res, "layer": "sys"}
+    out = {"cfg": c, "inject": inj, "rc": rc, "stderr": err, "res": res, "layer": "sys", "mode": mode}
     try:
         tr = parse_strace(log, c, d)
         out.update(events=tr.events, positions=tr.positions, begin=tr.begin, end=tr.end, injected=tr.injected,
-                   killed_in=tr.killed_in)
+                   killed_in=tr.killed_in, unmapped=tr.unmapped)
     except OSError as e:
-        out.update(events=[], positions=[], begin=False, end=False, injected=0, killed_in=None, parse_error=str(e))
+        out.update(events=[], positions=[], begin=False, end=False, injected=0, killed_in=None, unmapped=[],
+                   parse_error=str(e))
     out["obs"] = observe(c, d)
     if not job.get("keep"):
         shutil.rmtree(d, ignore_errors=True)
@@ -1070,20 +1205,51 @@ def sys_job(job: dict) -> dict:
 
 
 def strace_available() -> tuple:
+    """(mode, detail): mode is "attach", "exec" or None."""
     import shutil
     import subprocess
 
     exe = shutil.which("strace")
     if not exe:
-        return False, "strace not installed"
+        return None, "strace not installed"
     try:
         p = subprocess.run([exe, "-o", "/dev/null", "-e", "trace=mkdir", "-e", "inject=mkdir:error=EIO:when=1",
-                            "/bin/mkdir", "/proc/self/vf-probe"], capture_output=True, text=True, timeout=20)
+                            "/bin/mkdir", "/proc/self/vf-probe"], capture_output=True, text=True, timeout=30)
     except (OSError, subprocess.TimeoutExpired) as e:
-        return False, f"strace failed to run: {e}"
+        return None, f"strace failed to run: {e}"
     if "Input/output error" not in p.stderr:
-        return False, "strace could not attach/inject: " + p.stderr[-200:]
-    return True, exe
+        return None, "strace could not trace/inject: " + p.stderr[-200:]
+    # can it attach to a running process?
+    r, w = os.pipe()
+    pid = os.fork()
+    if pid == 0:
+        try:
+            os.close(w)
+            os.read(r, 1)
+            try:
+                os.mkdir("/proc/self/vf-probe")
+            except OSError as e:
+                os._exit(7 if e.errno == _errno.EIO else 1)
+            os._exit(1)
+        finally:
+            os._exit(2)
+    os.close(r)
+    q = subprocess.Popen([exe, "-f", "-p", str(pid), "-o", "/dev/null", "-e", "trace=mkdir", "-e",
+                          "inject=mkdir:error=EIO:when=1"], stdout=subprocess.DEVNULL, stderr=subprocess.PIPE, text=True)
+    deadline = time.time() + 15
+    while time.time() < deadline and _tracer_pid(pid) == 0 and q.poll() is None:
+        time.sleep(0.005)
+    ok_attach = _tracer_pid(pid) > 0
+    os.write(w, b"x")
+    os.close(w)
+    _, st = os.waitpid(pid, 0)
+    try:
+        q.communicate(timeout=15)
+    except subprocess.TimeoutExpired:
+        q.kill()
+    if ok_attach and os.WIFEXITED(st) and os.WEXITSTATUS(st) == 7:
+        return "attach", exe
+    return "exec", exe + " (cannot attach to a running process; starting the interpreter under strace)"
 
 
 if __name__ == "__main__":
